@@ -87,26 +87,26 @@ let judge_conc ins outs =
       let nc = int_of_string nc and nr = int_of_string nr in
       let obs = ref [] and live = ref (-1) and other = ref [] in
       List.iter (fun t -> match String.split_on_char '.' t with
-        | ["E"; k; c; s] -> obs := ((nat k, nat c), nat s) :: !obs
+        | ["E"; k; c; s] -> obs := ((n_of_dec k, n_of_dec c), n_of_dec s) :: !obs
         | ["F"; l] -> live := int_of_string l
         | _ -> other := t :: !other) outs;
       let obs = List.rev !obs in
       if List.mem "RESMISMATCH" !other then
         VPropfail ("resmod_once_same_request_same_ctx", "concurrent batch: a response modifier saw other IDs than the request modifier of its exchange")
       else if not (conc_ok obs) then begin
-        let ctxs = List.map (fun ((_, c), _) -> int_of_nat c) obs in
+        let ctxs = List.map (fun ((_, c), _) -> int_of_n c) obs in
         let dup = List.length (List.sort_uniq compare ctxs) <> List.length ctxs in
         VPropfail ((if dup then "ctx_fresh" else "session_shared_per_connection"),
                    Printf.sprintf "concurrent batch %dx%d: %d exchanges, %d distinct context IDs, sessions seen: %d"
                      nc nr (List.length obs) (List.length (List.sort_uniq compare ctxs))
-                     (List.length (List.sort_uniq compare (List.map (fun (_, s) -> int_of_nat s) obs))))
+                     (List.length (List.sort_uniq compare (List.map (fun (_, s) -> int_of_n s) obs))))
       end
       else if !live <> 0 then VPropfail ("no_context_after_exchange", Printf.sprintf "concurrent batch: %d contexts still linked" !live)
       else if !other <> [] then VDisagree ("concurrent batch: " ^ String.concat "_" !other)
       else begin
         (* the serial schedule explains the renamed observation *)
-        let sched = List.concat (List.init nc (fun k -> List.init nr (fun _ -> nat_of_int k))) in
-        if conc_run O sched = obs then VOk true
+        let sched = List.concat (List.init nc (fun k -> List.init nr (fun _ -> n_of_int k))) in
+        if conc_run N0 sched = obs then VOk true
         else VDisagree "concurrent batch: observation is not the renamed serial schedule"
       end
   | _ -> VDisagree "bad concurrent case"
